@@ -5,6 +5,7 @@ CONSTANTS
   BinOps = {"add"}
   UnOps = {"neg"}
   WithStubFacts = TRUE
+  Fixed = {}
   WithGetattr = TRUE
   BugNoReflected = FALSE
 CHECK_DEADLOCK FALSE
